@@ -26,7 +26,7 @@ impl LinearRegressor for PolynomialRegression {
                 .sum::<f64>();
             rhs[i] = poly_sum;
         }
-        let coefficients = gaussian_elimination(&matrix, &rhs, 1e-5).unwrap();
+        let coefficients = gaussian_elimination(&matrix, &rhs, 1e-12).unwrap();
 
         let length = y.len() as f64;
 
